@@ -74,6 +74,10 @@ fn library() -> Lib {
         StructDecl { name: "Bx".into(), tparams: vec!["A".into()], fields: vec![("v".into(), tp("A")), ("n".into(), I32)], derives: vec![] },
         // two parameters: generic functions below name their own parameters like these, at other positions
         StructDecl { name: "Pr".into(), tparams: vec!["A".into(), "B".into()], fields: vec![("first".into(), tp("A")), ("second".into(), tp("B"))], derives: vec![] },
+        // a generic struct with a field whose type is a CONCRETE application of another generic type (it mentions no
+        // parameter of the struct, but still has to be rewritten to its instance in every copy; added after a seeded
+        // change that copied parameter-free fields verbatim)
+        StructDecl { name: "Ch".into(), tparams: vec!["A".into()], fields: vec![("item".into(), tp("A")), ("hits".into(), opt(I32)), ("pair".into(), Ty::Struct("Pr".into(), vec![Ty::Bool, Ty::Str]))], derives: vec![] },
         // a generic struct whose field applies another generic type to its own parameter
         StructDecl { name: "Wr".into(), tparams: vec!["A".into()], fields: vec![("inner".into(), boxt(tp("A"))), ("tag".into(), I32), ("alt".into(), opt(boxt(tp("A"))))], derives: vec![] },
     ];
@@ -377,6 +381,22 @@ fn library() -> Lib {
             ),
         ),
     )));
+    items.push(Item::Fn(fnd(
+        "hitsg",
+        &[("T", &[])],
+        vec![("c", Ty::Struct("Ch".into(), vec![tp("T")]))],
+        I32,
+        blk(
+            vec![],
+            Expr::Match(
+                Box::new(Expr::Field(Box::new(var("c")), "hits".into())),
+                vec![
+                    (Pat::Constr { enum_name: "Opt".into(), variant: "Som".into(), args: vec![Pat::Var("k".into())], qualified: true }, var("k")),
+                    (Pat::Constr { enum_name: "Opt".into(), variant: "Non".into(), args: vec![], qualified: true }, i(0)),
+                ],
+            ),
+        ),
+    )));
     // monomorphic unary functions used as callbacks
     items.push(Item::Fn(fnd("i_to_s", &[], vec![("x", I32)], Ty::Str, blk(vec![], bin(BinOp::Add, s("#"), bi("int32_to_string", vec![var("x")]))))));
     items.push(Item::Fn(fnd("i_to_b", &[], vec![("x", I32)], Ty::Bool, blk(vec![], bin(BinOp::Gt, var("x"), i(2))))));
@@ -444,7 +464,7 @@ fn gen_calls(g: &mut Gen, n: usize) -> Vec<Call> {
         let t = g.rng.pick_ref(&pool).clone();
         let u = g.rng.pick_ref(&pool).clone();
         let val = |g: &mut Gen, ty: &Ty| g.gen_expr(ty, 1, &[]);
-        let which = g.rng.below(41);
+        let which = g.rng.below(43);
         let c = match which {
             0 => Call { name: "idg", targs: vec![("T".into(), t.clone())], args: vec![val(g, &t)], ret: t.clone() },
             1 => Call { name: "pairg", targs: vec![("T".into(), t.clone()), ("U".into(), u.clone())], args: vec![val(g, &t), val(g, &u)], ret: Ty::Tuple(vec![t.clone(), u.clone()]) },
@@ -501,6 +521,7 @@ fn gen_calls(g: &mut Gen, n: usize) -> Vec<Call> {
             37 => Call { name: "tagg", targs: vec![("T".into(), t.clone()), ("U".into(), u.clone())], args: vec![val(g, &t)], ret: Ty::Tuple(vec![t.clone(), opt(u.clone())]) },
             38 => Call { name: "halfpr", targs: vec![("A".into(), t.clone()), ("B".into(), u.clone())], args: vec![val(g, &t)], ret: Ty::Tuple(vec![t.clone(), opt(Ty::Struct("Pr".into(), vec![t.clone(), u.clone()]))]) },
             39 | 40 => Call { name: "swaprec", targs: vec![("A".into(), t.clone()), ("B".into(), u.clone())], args: vec![val(g, &t), val(g, &u), i(g.rng.below(4) as i128)], ret: I32 },
+            41 | 42 => Call { name: "hitsg", targs: vec![("T".into(), t.clone())], args: vec![val(g, &Ty::Struct("Ch".into(), vec![t.clone()]))], ret: I32 },
             19 | 20 => Call { name: "unwrg", targs: vec![("T".into(), t.clone())], args: vec![Expr::Call { name: "mkwrg".into(), targs: vec![("T".into(), t.clone())], args: vec![val(g, &t)] }], ret: t.clone() },
             _ => {
                 let a = g.rng.pick_ref(&showable).clone();
